@@ -498,6 +498,7 @@ static void log_opt_values(cfg_opt_t *o)
 }
 
 static int dump_values_only;
+static int getter_monitor = 1;
 
 static void dump_opt(cfg_opt_t *o, int depth)
 {
@@ -664,7 +665,7 @@ static void run_op(char **t, int nt)
 	if (!strcmp(op, "case")) {
 		NEED(2);
 		cur_case = atol(t[1]);
-		cbcount = 0; failat = 0; v2mode = 0; next_tok = 0; tokens_out = 0; pff_log = 0;
+		cbcount = 0; failat = 0; v2mode = 0; next_tok = 0; tokens_out = 0; pff_log = 0; getter_monitor = 1;
 		vm_set_oom(0);
 		errno = 0;
 		base_fds = fd_count();
@@ -1102,7 +1103,7 @@ static void run_op(char **t, int nt)
 		path = sdec(t[3], NULL);
 		idx = (unsigned)atol(t[4]);
 		/* monitor: the getter families are one function seen through three doors - by name with index, by name (index 0), by option */
-		{
+		if (getter_monitor) {
 			cfg_opt_t *go = cfg_getopt(loc_cfg, path);
 			const char *why = NULL;
 			if (!strcmp(t[2], "int")) {
@@ -1301,7 +1302,7 @@ static void run_op(char **t, int nt)
 		return;
 	}
 	if (!strcmp(op, "stdio")) { check_stdio(); evflush(); return; }
-	if (!strcmp(op, "oomat")) { NEED(2); vm_set_oom(atol(t[1])); return; }
+	if (!strcmp(op, "oomat")) { NEED(2); vm_set_oom(atol(t[1])); getter_monitor = 0; return; }	/* (the monitor's own look-ups allocate: not inside a fault-injection script) */
 	if (!strcmp(op, "oomstat")) {
 		fprintf(LOG, "{\"ev\":\"oom\",\"count\":%lu,\"failed\":", vm_alloc_count());
 		if (vm_fail_func()) fprintf(LOG, "{\"f\":\"%s\",\"l\":%d,\"k\":\"%s\"}", vm_fail_func(), vm_fail_line(), vm_fail_kind());
